@@ -225,6 +225,8 @@ def bounded(tier, seed):
                     os.makedirs(work)
                     open(os.path.join(top, outer), "w").write(names[outer] % 41)
                     open(os.path.join(work, inner), "w").write(names[inner] % 47)
+                    if gap:
+                        os.makedirs(os.path.join(mid, ".git"))          # a repository root between the two is no barrier
                     open(os.path.join(work, "doc.md"), "w").write("x\n")
                     rc, eff, err = observe(["."], work)
                     evals += 1
@@ -233,6 +235,26 @@ def bounded(tier, seed):
                                            "got": eff.get("width"), "want": 47})
                 finally:
                     shutil.rmtree(d, ignore_errors=True)
+    # a config above a repository root (.git directory or file) still applies when nothing nearer exists
+    for marker in ("dir", "file"):
+        d = scratch_dir("vf-c16-")
+        try:
+            repo = os.path.join(d, "home", "repo")
+            work = os.path.join(repo, "docs")
+            os.makedirs(work)
+            if marker == "dir":
+                os.makedirs(os.path.join(repo, ".git"))
+            else:
+                open(os.path.join(repo, ".git"), "w").write("gitdir: ../x\n")
+            open(os.path.join(d, "home", ".flowmark.toml"), "w").write("width = 53\n")
+            open(os.path.join(work, "doc.md"), "w").write("x\n")
+            rc, eff, err = observe(["."], work)
+            evals += 1
+            if eff.get("width") != 53:
+                violations.append({"clause": "nearest_config_wins", "input": {"config": "above a repository root", "marker": marker},
+                                   "got": eff.get("width"), "want": 53})
+        finally:
+            shutil.rmtree(d, ignore_errors=True)
     # --list-files lists what a formatting run would take: the file-discovery keys of the config file apply to it as well
     for setting in ("exclude", "extend_exclude", "extend_include", "respect_gitignore", "force_exclude", "files_max_size", "include"):
         d = scratch_dir("vf-c16-")
